@@ -14,7 +14,7 @@ NOT_APPLICABLE = {
     'C18': 'needs the generated .proto text to be valid proto3 and an independent protobuf decoder: differential testing, a different family; the .proto generator is string emission (DESIGN.md section 8)',
 }
 PENDING = {pid: 'check not built yet (work in progress in this session; see DESIGN.md section 6 for the planned contract)' for pid in
-           ['C01', 'C02', 'C04', 'C12', 'C19']}
+           ['C01', 'C02', 'C04', 'C19']}
 
 LEVEL_TEXT = {
     'C11': 'Every bit-level read/write/copy function of slice.rs and buffer.rs is verified by Verus against the naive bit-vector contract for all lengths, offsets, positions and contents (unbounded); histories follow by induction over the abstract view.',
@@ -22,6 +22,7 @@ LEVEL_TEXT = {
     'C06': 'Post-condition r is Ok ==> admissible(args) proved by Verus for every PackedWrite entry point, with error kind and nothing written on rejection; Charset::is_valid proved equal to the X.680 alphabets for all chars (Kani, complete).',
     'C03': 'Verus proofs of the real Scope step functions against functional contracts plus driver lemmas for any number of components and any presence pattern (stronger than the N <= 5 the property asks for).',
     'C05': 'Verus proof of the reader step/driver for an arbitrary transmitted addition count versus the local count; the V2->V1 skip of unknown present additions is a recorded known finding.',
+    'C12': 'Verus proof of the resolution step (the four real Resolver impls) for all names and values, with the scope search abstracted to an uninterpreted lookup (named assumption): partial decision of the property, stated as such.',
     'C15': 'Verus proof over all (min, max) of the real selection functions (complete, loop free) plus a Kani re-check on the compiled code; absent lower bound is a recorded known finding.',
     'C20': 'Kani complete proofs (no unbounded loop, unwinding assertions on) over all u64 lengths, all tags class x number < 64, all octets, all i64/u64 values.',
     'C17': 'Kani complete proofs for the protobuf primitives over all values; the composite reader/writer state machine is not decided (named in the evidence).',
